@@ -191,7 +191,27 @@ ApplyFuse(SA, SB, m) ==
 ClashMust(SA, SB, flt) == {x \in IdentsMust(SA) \cap IdentsMust(SB) : Pass(flt, x)}
 ClashMay(SA, SB, flt)  == {x \in IdentsMay(SA) \cap IdentsMay(SB) : Pass(flt, x)}
 
-DisClause(SA, SB, flt, SB2, sg) ==
+\* "Renames EXACTLY those identifiers": apart from the renamed Var nodes the trees of SB2 are
+\* the trees of SB, node for node and constant for constant.  A constant is its value AND
+\* its kind (the int 2 is not the float 2.0, the bool True is not the int 1): the trees of
+\* Expr.tla carry the kind in the value record, and equality of trees ( = ) is therefore
+\* strict about it.  Python's == on pymbolic objects is NOT: 2*i == 2.0*i, (acc == True) ==
+\* (acc == 1).  That looser relation is PyEq below; DisClauseG takes the relation used for the
+\* three expression clauses as a parameter so that C20_Gen can model-check what a judgement
+\* by PyEq would overlook (negative control "CachedMapper", blind-spot control "LooseEq").
+\* DisClause, the judgement, is the strict one.
+LooseV(v) == IF v.k \in {"bool", "int", "frac", "flt"} THEN [k |-> "num", n |-> v.n, d |-> v.d] ELSE v
+RECURSIVE EraseKinds(_)
+EraseKinds(e) ==
+    IF e.t = "Const" THEN K(LooseV(e.v))
+    ELSE IF Len(Kids(e)) = 0 THEN e
+    ELSE WithKids(e, [i \in 1..Len(Kids(e)) |-> EraseKinds(Kids(e)[i])])
+PyEq(e1, e2) == EraseKinds(e1) = EraseKinds(e2)
+StrictEq(e1, e2) == e1 = e2
+\* same statement up to the kinds of its constants
+PyEqBody(s, t) == s.kind = t.kind /\ PyEq(s.lhs, t.lhs) /\ PyEq(s.rhs, t.rhs) /\ PyEq(s.cond, t.cond)
+
+DisClauseG(SA, SB, flt, SB2, sg, Same(_, _)) ==
     LET dom  == DOMAIN sg
         ma   == IdentsMust(SA)      \* LET values are evaluated once
         mb   == IdentsMust(SB)
@@ -210,11 +230,18 @@ DisClause(SA, SB, flt, SB2, sg) ==
     ELSE IF rng \cap (ya \cup yb) # {} THEN "SKIP"
     ELSE IF \E i \in 1..Len(SB) : SB2[i].id # SB[i].id \/ Deps(SB2[i]) # Deps(SB[i])
                                  \/ SB2[i].kind # SB[i].kind THEN "dis-id-deps-kind-changed"
-    ELSE IF \E i \in 1..Len(SB) : SB2[i].lhs # RenameE(SB[i].lhs, sg) THEN "dis-lhs"
-    ELSE IF \E i \in 1..Len(SB) : SB2[i].rhs # RenameE(SB[i].rhs, sg) THEN "dis-rhs"
-    ELSE IF \E i \in 1..Len(SB) : SB2[i].cond # RenameE(SB[i].cond, sg) THEN "dis-cond"
+    ELSE IF \E i \in 1..Len(SB) : ~Same(SB2[i].lhs, RenameE(SB[i].lhs, sg)) THEN "dis-lhs"
+    ELSE IF \E i \in 1..Len(SB) : ~Same(SB2[i].rhs, RenameE(SB[i].rhs, sg)) THEN "dis-rhs"
+    ELSE IF \E i \in 1..Len(SB) : ~Same(SB2[i].cond, RenameE(SB[i].cond, sg)) THEN "dis-cond"
     ELSE IF {x \in ma \cap IdentsMust(SB2) : Pass(flt, x)} # {} THEN "dis-still-shared"
     ELSE "OK"
+DisClause(SA, SB, flt, SB2, sg)      == DisClauseG(SA, SB, flt, SB2, sg, StrictEq)
+\* NOT a judgement: what comparing the returned expressions with Python's == amounts to
+DisClauseLoose(SA, SB, flt, SB2, sg) == DisClauseG(SA, SB, flt, SB2, sg, PyEq)
+
+\* attribution of a failing expression clause: the logged statements differ from the expected
+\* ones in nothing but the kinds of constants (they are equal for Python's ==)
+KindOnly(S2, SExp) == Len(S2) = Len(SExp) /\ \A i \in 1..Len(S2) : PyEqBody(S2[i], SExp[i])
 
 \* the names a failing clause is about, and why the implementation may have missed them
 DisCulprits(SA, SB, flt, sg, clause) ==
